@@ -167,9 +167,10 @@ def compare(words, triple, run):
             return ('stage-order', 'spawn %d: expected stage %s, observed %s' % (k, drvref.STAGENAME[w['stage']], o['stage']))
         if w['argv'] != o['argv']:
             fam = 'argv/' + drvref.STAGENAME[w['stage']]
-            if '-emit-qbe' in words and w['stage'] == drvref.COMPILE and '-o' in o['argv'] and '-o' not in w['argv'] \
-                    and [a for a in o['argv'] if not a.endswith('.qbe') and a != '-o'] == w['argv']:
-                fam = 'emit-qbe-writes-file-instead-of-stdout'
+            if '-emit-qbe' in words and w['stage'] == drvref.COMPILE and '-o' in o['argv'] and '-o' not in w['argv']:
+                k = o['argv'].index('-o')
+                if o['argv'][k + 1].endswith('.qbe') and o['argv'][:k] + o['argv'][k + 2:] == w['argv']:
+                    fam = 'emit-qbe-writes-file-instead-of-stdout'
             return (fam, 'spawn %d (%s): expected argv %r, observed %r' % (k, drvref.STAGENAME[w['stage']], w['argv'], o['argv']))
         if w['stdin'] != o['stdin']:
             return ('stdin-provenance', 'spawn %d: stdin expected from spawn %r, observed %r' % (k, w['stdin'], o['stdin']))
